@@ -30,10 +30,15 @@ CFG = dict(
     rule="lock-step in synctest bubbles; Rig A (real client, scripted peer): ALL words of length <= 4 (thorough 5) over {send, closesend, recv, cancel, "
          "deadline expiry, peer body, peer trailer, unary call + reply, write failure} after the open, API-conformant; Rig B (real server, scripted "
          "protocol-conformant client): ALL words of length <= 5 (thorough 6) over {client body, close, reset; handler recv, send, set+send header, "
-         "return ok, return error} after the open, 3 stream kinds, + unary / undecodable metadata / bodies for unknown ids / the handler's own deadline; "
+         "return ok, return error, SendMsg of a message the codec rejects (quick: words <= 4 with it)} after the open, 3 stream kinds, + unary / "
+         "undecodable metadata / bodies for unknown ids / the handler's own deadline; the RETURN WINDOW as a schedulable point (a server stats handler "
+         "holds the OutTrailer event, a stream interceptor holds after the handler function: handler returned, trailer not yet handed to the writer) x "
+         "{body, 2 bodies, half-close, reset, body+reset} of the client arriving there, scripted client and end to end (the real client sends into it); "
          "Rig C (real client - held wires - real server): the cancellation-at-every-prefix scenarios of C07 and the abandonment scenarios of C11 "
          "(quick: a third / a quarter of them; thorough: all); every per-id per-direction projection of both wire histories is judged by proto_c2s / "
          "proto_s2c, plus trailer-presence, ids-received, route swap and reset-answers-a-body over the step-indexed histories",
     assumptions=["payloads, metadata, methods and names are opaque tokens for the client and server (checked by tokenised round trips in the rig)",
                  "the transport checks the context of a Write (Endpoint.CheckCtx): a Write with a cancelled context fails (hypothesis transport_checks_ctx of DESIGN.md)",
+                 "one observable is canonicalised in the rig: after an operation of a call failed with a transport write error, \"respChan closed\" and Canceled are one class "
+                 "(clientStream.teardown unregisters before it cancels; the stream loop may wake in between; Client.v's teardown is atomic; breaks none of C06/C07/C11)",
                  "quiescence = testing/synctest's durable blocking; the server half of the run is judged by the predicates only (its model is tied by ./check SV)"])
